@@ -1063,3 +1063,43 @@ CHECKS["C22"]["note"] = (
     "element-wise fixed={..} are outside the alphabet. Finite grid. transfer_model parses through pymoca's default "
     'parse cache (worker-private folder).'
 )
+
+CHECKS["C14"]["text"] = (
+    'Models with one state, one input, parameters (one defined by an expression), a constant and n = 3 (thorough 4) '
+    'algebraic unknowns. (A)-(C) triangular: each unknown defined from an earlier quantity by one of 20 forms (6 '
+    'alias spellings, 7 constant assignments incl. v = 0, 4 affine forms with constant factors, 2 if-else forms, a '
+    'neutral one): complete for <= 1 special form (every position, 4 dependency patterns, 2 state equations; every '
+    'permutation of the equation list on the chain pattern), for every pair of special forms, and for every '
+    'full-length chain over 6 core forms. (D) non-triangular regular systems: every non-singular set of k equations '
+    'from a pool of alias / shift / constant forms over the ordered pairs of k = 2 (3) unknowns -- alias cycles '
+    'with inconsistent signs, mutually defined unknowns. (E) models of (A) with an initial equation; DAE + initial '
+    'equations compared as one system. (F) systems that need not be square: every set of 2-3 alias equations tying '
+    'two unknowns to the state, the input or each other with either sign (redundant, contradictory, '
+    'over-determining). Option sets: every set of the 13 simplification switches and eliminable_variable_expression '
+    'within Hamming distance 1 of the default and of all-on on the source-order models (distance 2, thorough, on '
+    'the core pairs) and 10 / 5 named sets elsewhere. The real generate + simplify runs on each (a worker killed by '
+    'a signal is re-run in isolation and reported as process-crash); an exception or a warning logged by simplify '
+    'counts as reported failure (an imbalance the model already had before simplification does not). Otherwise, for '
+    'affine models the decision is exact: every recorded elimination (signed alias pair, algebraic unknown turned '
+    'constant with its value) must be a linear consequence of the original rows, and the projection of the original '
+    "solution set onto the remaining coordinates must have the row space of the simplified residual's rows (read "
+    'off the real function at 0 and unit vectors, affinity verified); for regular models the recorded eliminations '
+    'hold and the simplified residual vanishes with full-rank Jacobian at the unique solution for three (state, '
+    'input) points.'
+)
+
+CHECKS["C15"]["text"] = (
+    'The C14 enumeration without family (F) -- regular square models by construction, squareness checked before '
+    'simplification, including non-triangular alias cycles and models with initial equations -- is run through the '
+    'real generate + simplify; afterwards (#states + #algebraic states) - (#entries of the DAE residual) must be '
+    'unchanged, states and derivative states must pair up, dae_residual_function, initial_residual_function and '
+    "variable_metadata_function must be constructible and both residuals evaluable from the model's own variable "
+    'lists (no dangling eliminated symbol). A failure of the post-simplification balance / residual construction is '
+    'a violation; a worker killed by a signal is re-run in isolation and reported.'
+)
+
+CHECKS["C15"]["note"] = (
+    'An exception raised inside simplify() itself is not judged unless it names a dangling model variable (e.g. the '
+    'crash of reduce_affine_expression applied twice under iterative_simplification trips over its internal vectors '
+    'and is reported only in DESIGN.md); scalar variables only.'
+)
